@@ -95,6 +95,7 @@ def run_python(d):
     if d.get("flatten"):
         sol.flatten()
     mod = sol.solve(**kw)
+    recorded = {k: np.array(v, copy=True) for k, v in mod.solved_params.items()} if d.get("reread") else None
     exc = {n: complex(*v) for n, v in d["exc"].items()}
     if len(d["comps"]) % 2 == 0:
         # the same result has been asked before about the same pins with OTHER amplitudes (and in the other mode)
@@ -112,6 +113,10 @@ def run_python(d):
         if sorted(tab.columns) != sorted(tab2.columns) or not all(
                 np.array_equal(np.asarray(tab[c]), np.asarray(tab2[c])) for c in tab.columns):
             raise ValueError("monitor read-out of an earlier result changed")
+        # ... nor may the read-outs have written into the parameters the result recorded (C06: a result is a snapshot)
+        now = mod.solved_params
+        if sorted(now) != sorted(recorded) or not all(np.array_equal(np.asarray(now[k]), recorded[k]) for k in recorded):
+            raise ValueError("recorded parameters of an earlier result changed by a monitor read-out")
     got = sorted(p.name for p in mod.pin_dic)
     if got != sorted(names):
         raise ValueError("exposed pin set differs")
